@@ -7,7 +7,9 @@ SEEDS = {
  'C01a': ('C01', 'back chain_row: a DEFERRED result no longer stops the chain', 'an earlier-tried row (or the forwarding row of a deferring submachine) answers DEFERRED while a later row of the same cell is enabled'),
  'C01b': ('C01', 'backmp11 do_process_event: the sm-internal table is consulted only if the region result is exactly 0 (was: not TRUE/DEFERRED)', 'machine with an sm-level internal row for E while an active region state has a row for E whose guard rejects'),
  'C02a': ('C08', 'back do_entry: region initialisation from history moved into the plain-entry variant only', 'explicit entry / fork / entry point into a multi-region submachine after a previous visit moved an untargeted region'),
+ 'C02c': ('C02', 'back11 region_entry_exit_helper::do_exit: recursion to the next region moved before the exit of this region (regions left in reverse order)', 'multi-region back11 submachine left by an external transition, or stop() of a multi-region root'),
  'C03a': ('C08', 'backmp11 history_impl: remembered configuration starts as all zeros instead of the initial state ids', 'first-ever entry taken under history in a machine with >= 2 regions'),
+ 'C03c': ('C03', 'backmp11: m_running = true moved from preprocess_entry (all entry paths) into on_entry only', 'first activation of a submachine through an explicit / fork / entry-point entry (never entered plainly before)'),
  'C04a': ('C04', 'backmp11 process_event_internal: the event pool is drained only after a direct call', 'event forwarded to a submachine whose behaviour raises an event on the submachine'),
  'C04b': ('C04', 'back/back11 do_process_helper: the catch handler clears m_event_processing before calling exception_caught', 'exception_caught submits an event (and the failing step queued one before): dispatched re-entrantly inside the handler, order inverted'),
  'C05a': ('C05', 'backmp11 is_event_deferred_visitor: |= became =', 'two active deferring states, the later-visited one with a conditional is_event_deferred returning false'),
